@@ -1,6 +1,6 @@
 SPECIFICATION Spec
-CONSTANT Products <- SmallProducts
-CONSTANT NoFaults = FALSE
+CONSTANT Products <- Family
+CONSTANT NoFaults = TRUE
 INVARIANT FailStopFiles
 INVARIANT MissingIsOSError
 INVARIANT NoTrailerAccess
